@@ -150,6 +150,48 @@ def sweep_foreign_labels(R, ctx):
                     ctx.nontrivial("foreign-label", repr(t1), repr(t2), sub[1], kind1)
 
 
+def sweep_declaration_forms(R, ctx):
+    """structures declared with keyword members (alone and mixed with positional ones) are the same format as with positional
+    members; label strings naming overlapping or repeated flags are the OR of the masks"""
+    Bt, H = ["name", "Byte"], ["name", "Int16ub"]
+    k = 0
+    for mod in (2, 3, 4):
+        for ms in ([["a", Bt], ["b", H]], [["a", Bt], ["b", H], ["c", ["Bytes", 3]]], [["x", ["Bytes", 5]], ["y", Bt]]):
+            for npos in range(len(ms) + 1):
+                k += 1
+                if not ctx.mine(k):
+                    continue
+                r = ["AlignedStruct", mod, ms, npos]
+                for _ in range(6):
+                    v = {n: (R.ctx.rng.randrange(256) if m == Bt else R.ctx.rng.randrange(65536) if m == H else bytes(R.ctx.rng.randrange(256) for _ in range(m[1]))) for n, m in ms}
+                    b = R.build(r, v, {}, "declaration-forms")
+                    if b is not None:
+                        R.parse(r, b + b"\x77", {}, "declaration-forms")
+                        R.parse(r, b[:-1], {}, "declaration-forms")
+                R.ctx.nontrivial("alignedstruct-keywords", mod, len(ms), npos)
+    # lengths, counts and alignments written as <constant> <op> <field> (the constant on the left)
+    N = ["this", "n"]
+    for j, dep in enumerate((["Bytes", ["bin", "<<", 1, N]], ["Array", ["bin", "<<", 1, N], Bt], ["Aligned", ["bin", "<<", 2, N], Bt], ["Padding", ["bin", "-", 6, N]], ["Bytes", ["bin", ">>", 16, N]],
+                             ["PaddedString", ["bin", "//", 12, ["bin", "+", N, 1]], "ascii"], ["Array", ["bin", "%", 7, ["bin", "+", N, 2]], H], ["Bytes", ["bin", "**", 2, N]])):
+        if not ctx.mine(k + 2 + j):
+            continue
+        r = ["Struct", [["n", Bt], ["d", dep], ["t", Bt]]]
+        for n in range(0, 5):
+            try:
+                v = {"n": n, "d": genval(dep, R.ctx.rng, M.top_scope({"n": n})), "t": 9}
+            except Exception:
+                continue
+            b = R.build(r, v, {}, "declaration-forms")
+            if b is not None:
+                R.parse(r, b, {}, "declaration-forms")
+        R.ctx.nontrivial("reflected-operator-length", repr(dep)[:60])
+    fl = ["FlagsEnum", Bt, [["r", 4], ["rw", 6], ["x", 1], ["all", 7], ["hi", 0x80]]]
+    if ctx.mine(k + 1):
+        for sp in ("r|rw", "rw|r", "r|r", "x|rw|r", "all|x", "hi|all|hi", "r | rw", "rw", "all"):
+            R.build(fl, sp, {}, "declaration-forms")
+            R.build(["Struct", [["h", Bt], ["f", fl]]], {"h": 1, "f": sp}, {}, "declaration-forms")
+
+
 def sweep_mapping_labels(R, ctx):
     """Mapping tables whose Python-side labels are falsy or unusual objects (False, 0, "", None, bytes, the empty tuple):
     a label is whatever the table says, in both directions, exhaustively over the byte domain"""
@@ -597,6 +639,7 @@ def run(ctx):
     sweep_zero_width(R, ctx)
     sweep_foreign_labels(R, ctx)
     sweep_mapping_labels(R, ctx)
+    sweep_declaration_forms(R, ctx)
     sweep_negative_lengths(R, ctx, rng)
     sweep_bits(R, ctx, rng)
     if ctx.mine(3):
